@@ -24,6 +24,7 @@ import (
 	"github.com/streamingfast/dstore"
 	"github.com/streamingfast/substreams"
 	"github.com/streamingfast/substreams/orchestrator"
+	orchexecout "github.com/streamingfast/substreams/orchestrator/execout"
 	"github.com/streamingfast/substreams/orchestrator/loop"
 	"github.com/streamingfast/substreams/orchestrator/response"
 	"github.com/streamingfast/substreams/orchestrator/scheduler"
@@ -176,7 +177,9 @@ func randProg(r *rand.Rand) sysProg {
 		return m
 	}
 	var st1 sysMod
-	switch r.Intn(6) {
+	switch r.Intn(7) {
+	case 6: // store fed by the block source itself
+		st1 = mkStore("st1", []ainput{{K: "source", V: blockType}}, []vterm{{T: "num", C: 1}, {T: "branch", C: 50}, {T: "const", C: 2}})
 	case 0: // clock-only store
 		st1 = mkStore("st1", []ainput{{K: "source", V: "sf.substreams.v1.Clock"}}, []vterm{{T: "num", C: 1}, {T: "const", C: 1}})
 	case 1: // params-only store
@@ -356,6 +359,7 @@ type runCfg struct {
 	Label     string `json:"label"`
 	Final     bool   `json:"finalonly"` // final_blocks_only request; the source then emits bare irreversible steps
 	Out       string `json:"outmod"`    // output module ("out" unless stated)
+	WalkHold  int    `json:"walkhold"`  // a walker attempt that found no file is reported after this many scheduler messages
 	MergeHold int    `json:"mergehold"` // merges wait for this many scheduler messages (0 = as fast as they go)
 }
 
@@ -661,6 +665,20 @@ func runTier1(env *sysEnv, cfg runCfg, cursor string, traceSched bool) (obs runO
 	} else {
 		stage.VerifMergeGate = nil
 	}
+	// walker gate: a download attempt that found no file stays "in flight" until the scheduler has handled cfg.WalkHold more
+	// messages (or 60 ms passed) - e.g. the success of the very job that writes the file
+	if cfg.WalkHold > 0 {
+		hold := int64(cfg.WalkHold)
+		orchexecout.VerifNotPresentGate = func() {
+			start := updates.Load()
+			deadline := time.Now().Add(60 * time.Millisecond)
+			for updates.Load() < start+hold && time.Now().Before(deadline) {
+				time.Sleep(200 * time.Microsecond)
+			}
+		}
+	} else {
+		orchexecout.VerifNotPresentGate = nil
+	}
 	if !traceSched {
 		scheduler.VerifTrace = func(s *scheduler.Scheduler, msg loop.Msg) { updates.Add(1) }
 	}
@@ -695,6 +713,7 @@ func runTier1(env *sysEnv, cfg runCfg, cursor string, traceSched bool) (obs runO
 	cancel()
 	scheduler.VerifTrace = nil
 	stage.VerifMergeGate = nil
+	orchexecout.VerifNotPresentGate = nil
 	schedMu.Unlock()
 	if err != nil {
 		obs.Err = err.Error()
@@ -791,6 +810,7 @@ func randCfg(r *rand.Rand, p sysProg, seg uint64) runCfg {
 	}
 	c.Final = r.Intn(4) == 0
 	c.MergeHold = []int{0, 0, 1, 3, 8}[r.Intn(5)]
+	c.WalkHold = []int{0, 0, 1, 2, 4}[r.Intn(5)]
 	return c
 }
 
